@@ -32,6 +32,8 @@ type EAct struct {
 
 type EngineCase struct {
 	Acts []EAct `json:"acts"`
+	// Stream: the table also holds three pairs of 1.5 MiB; acts stream-open / stream-next drain a range read over them lazily
+	Stream bool `json:"stream,omitempty"`
 }
 
 func genEngine(t *rapid.T) EngineCase {
@@ -55,7 +57,76 @@ func genEngine(t *rapid.T) EngineCase {
 		}
 		c.Acts = append(c.Acts, a)
 	}
+	if rapid.IntRange(0, 2).Draw(t, "streams") == 0 {
+		// a streamed range read of several messages is opened on a node and drained one message at a time while the history goes
+		// on: every message carries a header of its own, produced when the message is (seeded change C19-K: the header of a stream
+		// was built once when the stream was opened - a message sent after a leader change reported the older term again)
+		c.Stream = true
+		for i, k := 0, rapid.IntRange(1, 3).Draw(t, "nstreams"); i < k; i++ {
+			at := rapid.IntRange(0, len(c.Acts)).Draw(t, "stream.at")
+			node := rapid.IntRange(0, 2).Draw(t, "stream.node")
+			acts := append([]EAct(nil), c.Acts[:at]...)
+			acts = append(acts, EAct{Kind: "stream-open", Node: node})
+			rest := c.Acts[at:]
+			for m := 0; m < 2; m++ {
+				cut := rapid.IntRange(0, len(rest)).Draw(t, "stream.gap")
+				acts = append(acts, rest[:cut]...)
+				acts = append(acts, EAct{Kind: "transfer", Node: rapid.IntRange(0, 2).Draw(t, "stream.transfer")}, EAct{Kind: "range", Node: node}, EAct{Kind: "stream-next", Node: node})
+				rest = rest[cut:]
+			}
+			c.Acts = append(acts, rest...)
+		}
+	}
 	return c
+}
+
+// lazyStream drains a range stream one message at a time, each produced only when it is asked for.
+type lazyStream struct {
+	node int
+	req  chan struct{}
+	out  chan *regattapb.RangeResponse
+	done chan struct{}
+}
+
+func openLazy(node int, seq func(func(*regattapb.RangeResponse) bool)) *lazyStream {
+	s := &lazyStream{node: node, req: make(chan struct{}), out: make(chan *regattapb.RangeResponse), done: make(chan struct{})}
+	go func() {
+		defer close(s.done)
+		if _, ok := <-s.req; !ok {
+			return
+		}
+		seq(func(r *regattapb.RangeResponse) bool {
+			select {
+			case s.out <- r:
+			case <-time.After(30 * time.Second):
+				return false
+			}
+			_, ok := <-s.req
+			return ok
+		})
+	}()
+	return s
+}
+
+func (s *lazyStream) next() *regattapb.RangeResponse {
+	select {
+	case s.req <- struct{}{}:
+	case <-s.done:
+		return nil
+	}
+	select {
+	case r := <-s.out:
+		return r
+	case <-s.done:
+		return nil
+	case <-time.After(30 * time.Second):
+		return nil
+	}
+}
+
+func (s *lazyStream) close() {
+	defer func() { _ = recover() }()
+	close(s.req)
 }
 
 var (
@@ -73,7 +144,7 @@ type report struct {
 }
 
 func runEngine(c EngineCase, o *vt.Obs) *vt.Failure {
-	mcOnce.Do(func() { mcFx, mcErr = enginefx.StartCluster(3, enginefx.Opts{}) })
+	mcOnce.Do(func() { mcFx, mcErr = enginefx.StartCluster(3, enginefx.Opts{MaxInMemLogSize: 6 * 1024 * 1024}) })
 	if mcErr != nil {
 		vt.Inconclusive("C19 cluster fixture: " + mcErr.Error())
 		return nil
@@ -112,10 +183,60 @@ func runEngine(c EngineCase, o *vt.Obs) *vt.Failure {
 		}
 		return nil
 	}
-	transfers, restarts := 0, 0
+	transfers, restarts, streamed := 0, 0, 0
+	if c.Stream {
+		// three pairs of 1.5 MiB: a range read over them takes at least two messages
+		big := make([]byte, 1536*1024)
+		for i := range big {
+			big[i] = byte(i*31 + 7)
+		}
+		for i := 0; i < 3; i++ {
+			ctx, cancel := context.WithTimeout(context.Background(), 30*time.Second)
+			_, err := mcFx[0].E.Put(ctx, &regattapb.PutRequest{Table: []byte(name), Key: []byte(fmt.Sprintf("s%d", i)), Value: big})
+			cancel()
+			if err != nil {
+				vt.Inconclusive("C19 loading the streamed pairs: " + err.Error())
+				return nil
+			}
+		}
+	}
+	var stream *lazyStream
+	defer func() {
+		if stream != nil {
+			stream.close()
+		}
+	}()
 	for i, a := range c.Acts {
 		f := mcFx[a.Node]
 		switch a.Kind {
+		case "stream-open":
+			if stream != nil {
+				stream.close()
+				stream = nil
+			}
+			ctx, cancel := context.WithTimeout(context.Background(), 60*time.Second)
+			defer cancel()
+			seq, err := f.E.IterateRange(ctx, &regattapb.RangeRequest{Table: []byte(name), Key: []byte("s"), RangeEnd: []byte("t")})
+			if err != nil {
+				continue
+			}
+			stream = openLazy(a.Node, seq)
+			if r := stream.next(); r != nil {
+				if fl := record(i, a.Node, r.Header); fl != nil {
+					return fl
+				}
+			}
+		case "stream-next":
+			if stream == nil || stream.node != a.Node {
+				continue
+			}
+			if r := stream.next(); r != nil {
+				streamed++
+				if fl := record(i, a.Node, r.Header); fl != nil {
+					fl.Msg += " [a message of a streamed range read opened earlier on that node]"
+					return fl
+				}
+			}
 		case "put":
 			ctx, cancel := context.WithTimeout(context.Background(), 10*time.Second)
 			r, err := f.E.Put(ctx, &regattapb.PutRequest{Table: []byte(name), Key: []byte("k"), Value: []byte(fmt.Sprint(i))})
@@ -142,6 +263,10 @@ func runEngine(c EngineCase, o *vt.Obs) *vt.Failure {
 		case "pause":
 			time.Sleep(time.Duration(a.N) * time.Millisecond)
 		case "restart":
+			if stream != nil && stream.node == a.Node {
+				stream.close()
+				stream = nil
+			}
 			if err := f.Restart(); err != nil {
 				vt.Inconclusive("C19 node restart: " + err.Error())
 				return nil
@@ -198,6 +323,9 @@ func runEngine(c EngineCase, o *vt.Obs) *vt.Failure {
 	}
 	if transfers > 0 {
 		o.Label("leadership-transfer")
+	}
+	if streamed > 0 {
+		o.Label("headers-of-later-messages-of-a-streamed-read")
 	}
 	if restarts > 0 {
 		o.Label("node-restart")
